@@ -115,7 +115,7 @@ class TranslatorZ3(Translator):
     # Implemented language
     __LANG__ = "z3"
     # Operations translation
-    trivial_ops = ["+", "-", "/", "%", "&", "^", "|", "*", "<<"]
+    trivial_ops = ["+", "-", "&", "^", "|", "*", "<<"]
 
     def __init__(self, endianness="<", loc_db=None, **kwargs):
         """Instance a Z3 translator
@@ -195,6 +195,11 @@ class TranslatorZ3(Translator):
             for arg in args[1:]:
                 if expr.op in self.trivial_ops:
                     res = eval("res %s arg" % expr.op)
+                elif expr.op == "/":
+                    # Miasm '/' and '%' are unsigned (z3's operators are signed)
+                    res = z3.UDiv(res, arg)
+                elif expr.op == "%":
+                    res = z3.URem(res, arg)
                 elif expr.op == ">>":
                     res = z3.LShR(res, arg)
                 elif expr.op == "a>>":
